@@ -455,12 +455,13 @@ def gen_case(rng):
     r = rng.random()
     if r < 0.2:
         call["tout"] = [k for k in KEYS if rng.random() < 0.3]
-    elif r < 0.32:
-        call["style"] = rng.choice(["kwargs", "kwargs", "args"])
+    elif r < 0.36:
+        call["style"] = rng.choice(["kwargs", "args"])
         call["extra"] = []
         if call["style"] == "args":
-            call["npos"] = rng.randrange(0, 4)
-    elif r < 0.45 and g["t"] == "seq":
+            call["npos"] = rng.choice([0, 1, 2, 2, 3, 3])
+            call["drop"] = None
+    elif r < 0.49 and g["t"] == "seq":
         call["style"] = "lazy"
         g["pt"] = rng.random() < 0.8
         free = spec_free_reads(g)
@@ -994,14 +995,14 @@ def gen_all(R):
     rng = R.rng
     q = R.quick
     cases = []
-    n_flow = 700 if q else 14000
-    n_sub = 300 if q else 6000
+    n_flow = 1400 if q else 20000
+    n_sub = 500 if q else 8000
     for _ in range(n_flow):
         cases.append(gen_case(rng))
     for _ in range(n_sub):
         cases.append(gen_subseq_case(rng))
     # every subset of the out_keys / of the key universe to the selectors, on a few graphs
-    n_graphs = 5 if q else 60
+    n_graphs = 8 if q else 80
     for _ in range(n_graphs):
         counter = [0]
         g = gen_seq(rng, counter, 0, 0.0, top=True)
